@@ -250,6 +250,10 @@ def shapes(tier, seed):
         ([("H", [0], []), ("RY", [1], []), ("CSWAP", [1, 2], [0])], 3, [("CSWAP", "depol")]),
         ([("RY", [0], []), ("H", [2], []), ("CX", [1], [0, 2])], 3, [("CX", "pauli")]),
         ([("RY", [2], []), ("SWAP", [0, 2], [])], 3, [("SWAP", "pauli"), ("RY", "depol")]),
+        # both channel types on ONE controlled gate, in both registration orders
+        ([("RY", [0], []), ("CNOT", [1], [0])], 2, [("CNOT", "depol"), ("CNOT", "pauli")]),
+        ([("RY", [0], []), ("CNOT", [1], [0])], 2, [("CNOT", "pauli"), ("CNOT", "depol")]),
+        ([("H", [1], []), ("CRZ", [0], [1])], 2, [("CRZ", "depol"), ("CRZ", "pauli")]),
     ]
     if tier == "thorough":
         cases += [
